@@ -29,7 +29,19 @@ class Check(HCheck):
     must_count = ("network_nonempty", "auto_link_seen", "dropped_unresolved_end", "tallies_compared", "cross_webentity_weight_gt1")
 
     def spaces(self, tier):
-        return R.rich_spaces(tier)
+        sp = R.rich_spaces(tier)
+        if tier == "thorough":
+            # a size the small alphabets never reach: 10 400 link-bearing pages of one webentity
+            # pointing to 7 pages of another that are visited later
+            from .. import alpha as al
+            from ..engine_h import Space
+            from ..world import Cfg
+
+            src = [b"s:http|h:com|h:aaa|p:%05d|" % i for i in range(10400)]
+            tgt = [b"s:http|h:com|h:zzz|p:%d|" % i for i in range(7)]
+            big = al.crawl(*[(s_, (tgt[i % 7], tgt[(i + 1) % 7]) if i % 13 == 0 else (tgt[i % 7],)) for i, s_ in enumerate(src)])
+            sp.append(Space(Cfg("domain"), [big, al.links((tgt[0], src[0]))], 2, name="sizes/10k-pages"))
+        return sp
 
     def check_state(self, w, ctx):
         t = w.t
